@@ -31,7 +31,7 @@ claim("C01",
   "DESIGN.md 4, 5/C01")
 
 claim("C03",
-  "statistical property testing with exact Jaccard oracle (Bernstein mean / MSE-bound tests) + exact and distributional checks of single-item sketches (permutation-ness, per-cell uniformity, DKW on fractional parts)",
+  "statistical property testing with exact Jaccard oracle (Bernstein mean / MSE-bound tests) + exact and distributional checks of single-item sketches (permutation-ness, per-cell uniformity, DKW and dyadic tail-interval Bernstein tests on fractional parts, position quarters for m up to 1e5)",
   "Exploration to a stated resolution: 144/2400 generated (type, m, set triple) configurations over six sketch types (f64, f32, NoHash, u64, u32/XxHash32) with 1e3..4e5 trials each; mean vs J two-sided, MSE <= J(1-J)/m one-sided; single-item sketches: integer parts form a permutation in every one of 8e6+ sketches (exact), all m! / m^2 cells uniform, fractional parts uniform and pairwise uncorrelated.",
   "f32: a value equal to j+1 is accepted for integer part j (r + j rounds up). Deviations below the recorded resolution are not detected.",
   "DESIGN.md 4, 5/C03")
@@ -49,14 +49,14 @@ claim("C06",
   "DESIGN.md 4, 5/C06")
 
 claim("C07",
-  "statistical property testing against an exact closed-form collision oracle (bucket sum of the register model incl. clipping) + pure-function property testing of the bounds over (b, p)",
+  "statistical property testing against an exact closed-form collision oracle (bucket sum of the register model incl. clipping; generator mode placing the upper register limit inside the register spread) + pure-function property testing of the bounds over (b, p)",
   "Exploration: 4e5/1e7 generated (b, p) pairs with b-1 down to 1e-10 for totality / ordering of the bounds; 64/1200 generated (register type, m, b, a, q, three cardinalities) configurations with 400..2e4 trials: mean fraction of equal registers vs the exact model probability within Bernstein with variance p(1-p)/m (positions are independent), and containment of the true Jaccard index by get_jaccard_bounds(p_exact) to 1e-4 for documented parameters.",
   "Containment is asserted only when a and q follow the documentation (clipping probability < 1e-6), as the property states.",
   "DESIGN.md 4, 5/C07")
 
 claim("C08",
-  "statistical property testing stratified on fill ratio (1/64 .. 50), three views per trial, generic-variance Bernstein + empirical Bernstein with confirmation",
-  "Exploration: 160/2400 generated (algorithm, float type, m, fill ratio, Jaccard fraction, shape) configurations, 600..4e5 trials each (sparse cases are cheap and get the most); the mean fraction of equal positions in the float, u64 and u32 views is compared with J.",
+  "statistical property testing stratified on fill ratio (1/64 .. 50), three views per trial, generic-variance Bernstein + empirical Bernstein with confirmation; control-variate test (union sketched per trial; exchangeability of the random items gives a zero-mean low-variance statistic)",
+  "Exploration: 160/2400 generated (algorithm, float type, m, fill ratio, Jaccard fraction, shape) configurations, 600..4e5 trials each (sparse cases are cheap and get the most); the mean fraction of equal positions in the float, u64 and u32 views is compared with J. Control-variate sub-check: 64/960 configurations (m 2..256, fill 1/16..3) with 2e4..4e5 trials; resolves relative biases of a fraction of a percent in the sparse regime.",
   "After densification positions are strongly correlated, so only the trivial variance bound J(1-J) is assumed; resolution is recorded per run.",
   "DESIGN.md 4, 5/C08")
 
@@ -86,7 +86,7 @@ claim("C12",
 
 claim("C13",
   "model-based stateful property testing: prefix history, reinit/reset, suffix, compared step by step with a new instance",
-  "Exploration: 1.2e5/2e6 histories over 12 unweighted sketcher kinds (prefixes with merges, overflowing u16 registers, active lower bounds, finished and unfinished densification), 4e4/8e5 ProbMinHash2 reset cases, 4e4/8e5 ProbOrdMinHash2 self-clearing cases; every observable incl. counters and raw densified state is compared.",
+  "Exploration: 1.2e5/2e6 histories over 17 unweighted sketcher kinds (incl. no-op hasher and SetSketch over signed registers) (prefixes with merges, overflowing u16 registers, active lower bounds, finished and unfinished densification), 4e4/8e5 ProbMinHash2 reset cases, 4e4/8e5 ProbOrdMinHash2 self-clearing cases; every observable incl. counters and raw densified state is compared.",
   "Raw densified state through verif_raw.",
   "DESIGN.md 5/C13")
 
@@ -97,15 +97,15 @@ claim("C14",
   "DESIGN.md 5/C14")
 
 claim("C16",
-  "statistical property testing: DKW goodness of fit against the closed-form CDF, plus a stratified test of the rejection branch by forcing the first generator word",
-  "Exploration: 64/640 generated rates (log-uniform 1e-9..40, ln(m/(m-1)), ln 2 ...) with 4e6/2e7 samples each: range check exact, Kolmogorov distance within the DKW bound; the rejection branch (probability down to 5e-10) is entered deliberately and its conditional law compared with the residual law.",
+  "statistical property testing: DKW goodness of fit and bin-by-bin Bernstein comparison (128 intervals) against the closed-form CDF, a stratified test of the rejection branch by forcing the first generator word, and a stratified sweep of the rate over (0,12]",
+  "Exploration: 96/640 generated rates (log-uniform 1e-9..40, ln(m/(m-1)), ln 2 ...) with 4e6/2e7 samples each: range check exact, Kolmogorov distance within the DKW bound; the rejection branch (probability down to 5e-10) is entered deliberately and its conditional law compared with the residual law. Sub-check grid: one rate in every cell of width 1/8 (1/32) of (0,12] with 2e6+6e6 (4e6+1.2e7) samples.",
   "The branch sub-check assumes 'first word decides', verified on the build under test, skipped and reported otherwise.",
   "DESIGN.md 4, 5/C16")
 
 claim("C17",
-  "property testing with a scripted generator (exact permutation-ness and history independence) + statistical per-cell uniformity test",
-  "Exploration: 1.5e5/3e6 generated (m, scripted words incl. the extremes of the unit interval, pre-reset history, blocks) cases compared draw by draw between a new, a reset-new and a used+reset instance; 48/480 uniformity cases with 6e6/4e7 draws: all m! orders (m <= 5) and all m^2 cells.",
-  "No bit-exact reference shuffle: any correct Fisher-Yates passes.",
+  "property testing with a scripted generator (exact permutation-ness and history independence) + exact cell-boundary test of the first draw (resolution 2^-40, m up to 1.1e6) + statistical per-cell uniformity test",
+  "Exploration: 1.5e5/3e6 generated (m, scripted words incl. the extremes of the unit interval, pre-reset history, blocks) cases compared draw by draw between a new, a reset-new and a used+reset instance; 48/480 uniformity cases with 6e6/4e7 draws: all m! orders (m <= 5) and all m^2 cells; 8e3/1.6e5 cell-boundary cases.",
+  "No bit-exact reference shuffle: any correct Fisher-Yates passes. The cell-boundary sub-check applies when the first draw is monotone in the generator word (verified per case, skipped and reported otherwise).",
   "DESIGN.md 5/C17")
 
 claim("C18",
